@@ -16,14 +16,18 @@ def main():
   tt = TokenTable()
   traces = []
   t0 = time.time()
-  for seed in args["seeds"]:
-    rec = histories.run_history(seed, profile=args["profile"], n_bundles=args["n_bundles"],
-                                invalid_prob=args.get("invalid_prob", 0.15),
-                                undo_prob=args.get("undo_prob", 0.5))
+  jobs = args.get("jobs") or [[args["profile"], s, args["n_bundles"]] for s in args["seeds"]]
+  for profile, seed, n_bundles in jobs:
+    if profile.startswith("fault:"):
+      rec = histories.run_fault_history(seed, profile=profile[6:], n_bundles=n_bundles)
+    else:
+      rec = histories.run_history(seed, profile=profile, n_bundles=n_bundles,
+                                  invalid_prob=args.get("invalid_prob", 0.15),
+                                  undo_prob=args.get("undo_prob", 0.5))
     tr = rec.trace()
     tt.ints.update(rec.tt.ints)
     traces.append(tr)
-  shard = {"meta": {"profile": args["profile"], "seeds": args["seeds"], "gen_wall": time.time() - t0},
+  shard = {"meta": {"jobs": jobs, "gen_wall": time.time() - t0},
            "ints": tt.ints, "traces": traces}
   with open(args["out"], "w") as f:
     json.dump(shard, f)
